@@ -61,6 +61,37 @@ where
     Ok(Box::new(reader))
 }
 
+/// checks that the header row of a CSV file names each of the given columns.
+/// records are decoded by column name, so without this check a file whose header row
+/// lacks a column is only noticed when its first record is decoded: a file of nothing
+/// but such a header row (or a file without a header row whose single record is taken
+/// for one) would be read as a file without records.
+pub fn require_csv_columns<F>(filepath: F, columns: &[&str]) -> Result<(), csv::Error>
+where
+    F: AsRef<Path>,
+{
+    let f = File::open(filepath.as_ref())?;
+    let r: Box<dyn io::Read> = if fs_utils::is_gzip(filepath.as_ref()) {
+        Box::new(BufReader::new(MultiGzDecoder::new(f)))
+    } else {
+        Box::new(f)
+    };
+    let mut csv_reader = ReaderBuilder::new().has_headers(true).from_reader(r);
+    let headers = csv_reader.headers()?;
+    match columns.iter().find(|c| !headers.iter().any(|h| h == **c)) {
+        None => Ok(()),
+        Some(missing) => Err(csv::Error::from(io::Error::new(
+            io::ErrorKind::InvalidData,
+            format!(
+                "file {} has no column '{}' in its header row ({:?})",
+                filepath.as_ref().to_string_lossy(),
+                missing,
+                headers
+            ),
+        ))),
+    }
+}
+
 /// reads a csv file into a vector. not space-optimized since size is not
 /// known.
 pub fn from_csv<'a, T>(
